@@ -20,7 +20,7 @@ def run(tier, rep):
         lines.append('%d dbd %s' % (dep if q else dep + 1, c))
     if not q:
         for n in dxlib.dbd_all():
-            lines.append('2 dbd %s 0 1' % n if n not in ('Ca40',) else '2 dbd %s 0 11' % n)
+            lines.append('2 dbd %s 0 0' % n)  # mode 0 = the first mode of {1,11,9,12,10,3} the nuclide accepts
     cfg = os.path.join(d, 'cfg')
     open(cfg, 'w').write('\n'.join(lines) + '\n')
     out = os.path.join(d, 'out.jsonl')
